@@ -56,6 +56,7 @@ const (
 	kPanicBuildError
 	kPanicOther
 	kUTCTime
+	kMarshalErr // MarshalASN1 of a value encoding/asn1 cannot marshal
 )
 
 // Sentinel errors / panic value handed to the Builder by the harness.
@@ -96,6 +97,7 @@ type entry struct {
 	ext       bool   // extended letter: all programs of <= 2 nodes, and 3-node programs with context letters around it
 	ctx       bool   // context letter of the extended 3-node programs
 	huge      bool   // 16 MiB letter: thorough tier, directed programs only
+	marshal   bool   // kInt64: written with Builder.MarshalASN1(int64) instead of AddASN1Int64
 	noFixed   bool   // programs with this letter are not rebuilt with NewFixedBuilder (transient size differs from the final size)
 }
 
@@ -438,6 +440,11 @@ func buildExtended() {
 	for _, n := range []int{0, 1, 2} {
 		addExt(&entry{k: kUnwrite, name: fmt.Sprintf("Unwrite(%d)", n), class: "Unwrite", n: n, enc: []byte{}, elemTag: -1, noFixed: true})
 	}
+	// MarshalASN1 (delegates to the repository's encoding/asn1.Marshal)
+	for _, v := range []int64{300, -129} {
+		addExt(&entry{k: kInt64, name: fmt.Sprintf("MarshalASN1(int64 %d)", v), class: "MarshalASN1", i: v, z: big.NewInt(v), enc: mustStd(big.NewInt(v), ""), elemTag: 0x02, marshal: true})
+	}
+	addExt(&entry{k: kMarshalErr, name: "MarshalASN1(chan int)", class: "MarshalASN1(unsupported type)", err: "marshal-asn1-error", elemTag: -1})
 	// error plumbing
 	addExt(&entry{k: kSetError, name: "SetError(sentinel)", class: "SetError", err: "set-error", sentinel: errSet, elemTag: -1})
 	addExt(&entry{k: kAddValue, name: "AddValue(Marshal: AddUint16(0x0a0b))", class: "AddValue", u: 0x0a0b, enc: []byte{0x0a, 0x0b}, elemTag: -1})
